@@ -9,8 +9,9 @@ CONSTANTS
   RDelims <- NoRDelims
   MaxParts = 2
   MaxOps = 1
-  ContentSel = {4, 6}
-  ProfileSel = {1}
+  MaxRetry = 1
+  ContentSel = {6}
+  ProfileSel = {2}
   UseJson = FALSE
   BoundarySel = {1}
   PreSel = {1}
@@ -19,9 +20,10 @@ CONSTANTS
   LimModes = {"base"}
   EditPos <- AllPos
   EditKinds = {"del", "ins", "sub"}
-  EditVals = {45, 13, 10, 88}
+  EditVals = {45, 13, 10, 233}
   Depth = 0
 INVARIANT ContentExact
+INVARIANT SizeFailureSticks
 INVARIANT CorruptionIsErrorOrWellDefined
 PROPERTY MCBufferLimitExact
 PROPERTY MCProgress
